@@ -3,13 +3,14 @@
 import json, os, sys
 HERE = os.path.dirname(os.path.dirname(os.path.abspath(__file__)))
 BASELINE = json.load(open("/root/.vp/BASELINE.json"))["cmd"] if os.path.exists("/root/.vp/BASELINE.json") else "cargo test --workspace --offline"
+READY = set(json.load(open(os.path.join(HERE, "contracts", "ready.json"))))   # properties whose checks the main session has accepted
 checks, claimed = [], set()
 for pid in sorted(os.listdir(os.path.join(HERE, "contracts"))):
     pj = os.path.join(HERE, "contracts", pid, "property.json")
     if not os.path.exists(pj):
         continue
     p = json.load(open(pj))
-    if not p.get("claimed", True):
+    if not p.get("claimed", True) or pid not in READY:
         continue
     claimed.add(pid)
     checks.append(dict(
